@@ -54,20 +54,60 @@ func vU64Bytes(v uint64) []byte {
 	return []byte{byte(v >> 56), byte(v >> 48), byte(v >> 40), byte(v >> 32), byte(v >> 24), byte(v >> 16), byte(v >> 8), byte(v)}
 }
 
+// vGuarded copies b into a buffer with 24 further octets (0xA5) behind it; vGuardIntact checks both parts.
+func vGuarded(b []byte) []byte {
+	g := make([]byte, len(b)+24)
+	copy(g, b)
+	for i := len(b); i < len(g); i++ {
+		g[i] = 0xA5
+	}
+	return g
+}
+
+func vGuardIntact(g, b []byte) bool {
+	ok := vr.EqBytes(g[:len(b)], b)
+	for i := len(b); i < len(g); i++ {
+		ok = vr.All(ok, g[i] == 0xA5)
+	}
+	return ok
+}
+
 // HIKESAKeys (C07): GenerateKeyForIKESA against the independent prf / prf+ and length tables, and the
 // ready-made objects are keyed with exactly those keys.
 // Params: encr idx, integ idx, prf idx, nonce length, shared-secret length.
 func HIKESAKeys() {
 	ei, ii, pi, ln, ls := vr.Param(0), vr.Param(1), vr.Param(2), vr.Param(3), vr.Param(4)
-	k := &IKESAKey{
+	vDeriveAndCheck(vNewIKESAKeyObject(ei, ii, pi), ei, ii, pi, ln, ls)
+}
+
+// HIKESAKeysRepeated (C07): the same on an object that has already been through a derivation (a
+// restarted exchange, a retry with other nonces): the second derivation gives exactly the keys of its
+// own inputs.  Params as HIKESAKeys, then the nonce and secret lengths of the first derivation.
+func HIKESAKeysRepeated() {
+	ei, ii, pi, ln, ls := vr.Param(0), vr.Param(1), vr.Param(2), vr.Param(3), vr.Param(4)
+	k := vNewIKESAKeyObject(ei, ii, pi)
+	err := k.GenerateKeyForIKESA(vr.Bytes(vr.Param(5)), vr.Bytes(vr.Param(6)), vr.U64(), vr.U64())
+	vr.Assert("c07.first.noerr", err == nil)
+	vDeriveAndCheck(k, ei, ii, pi, ln, ls)
+}
+
+func vNewIKESAKeyObject(ei, ii, pi int) *IKESAKey {
+	return &IKESAKey{
 		DhInfo:    dh.StrToType(dh.DH_2048_BIT_MODP),
 		EncrInfo:  encr.StrToType(vEncrNames[ei]),
 		IntegInfo: integ.StrToType(vIntegNames[ii]),
 		PrfInfo:   prf.StrToType(vPrfNames[pi]),
 	}
+}
+
+func vDeriveAndCheck(k *IKESAKey, ei, ii, pi, ln, ls int) {
 	nonce, secret := vr.Bytes(ln), vr.Bytes(ls)
 	spiI, spiR := vr.U64(), vr.U64()
-	err := k.GenerateKeyForIKESA(append([]byte{}, nonce...), append([]byte{}, secret...), spiI, spiR)
+	// the arguments are views of larger buffers the caller goes on using (a receive buffer): nothing
+	// behind or inside them is written
+	nbuf, sbuf := vGuarded(nonce), vGuarded(secret)
+	err := k.GenerateKeyForIKESA(nbuf[:ln], sbuf[:ls], spiI, spiR)
+	vr.Assert("c07.arguments-untouched", vr.All(vGuardIntact(nbuf, nonce), vGuardIntact(sbuf, secret)))
 	vr.Assert("c07.noerr", err == nil)
 	if err != nil {
 		return
@@ -129,17 +169,23 @@ func HIKESAKeysRefuse() {
 // the IKE SA's Prf_d object starts with Param(4) octets of junk already written (whatever an earlier
 // use left behind), and a second derivation on the same object gives the same keys again.
 // Params: prf idx, encr idx, integ idx (3 = none), nonce length, junk length (+1000: the Child SA key
-// object is built by NewChildSAKeyByProposal from its own proposal instead of a struct literal).
+// object is built by NewChildSAKeyByProposal from its own proposal instead of a struct literal; +2000: the
+// IKE SA object carries SK_d only inside Prf_d).
 func HChildKeys() {
 	pi, ei, ii, ln, junk := vr.Param(0), vr.Param(1), vr.Param(2), vr.Param(3), vr.Param(4)
 	skd := vr.Bytes(vPrfLen[pi])
 	ike := &IKESAKey{PrfInfo: prf.StrToType(vPrfNames[pi]), SK_d: skd}
 	ike.Prf_d = ike.PrfInfo.Init(skd)
+	if junk >= 2000 {
+		// an SA object that holds the derivation key only inside its PRF object (raw key wiped / never
+		// stored, as in the repository's own test): the ready-made object is what derivations use
+		ike.SK_d = nil
+	}
 	if junk%1000 > 0 {
 		ike.Prf_d.Write(vr.Bytes(junk % 1000))
 	}
 	nonce := vr.Bytes(ln)
-	viaProposal := junk >= 1000 // the Child SA key object comes from the negotiated-proposal constructor
+	viaProposal := junk >= 1000 && junk < 2000 // the Child SA key object comes from the negotiated-proposal constructor
 	mk := func() *ChildSAKey {
 		c := &ChildSAKey{EncrKInfo: encr.StrToKType(vEncrNames[ei])}
 		if ii < 3 {
@@ -198,7 +244,9 @@ func HNewIKESAKey() {
 	peer := vr.Bytes(vDhLen[di])
 	nonce := vr.Bytes(8)
 	si, sr := vr.U64(), vr.U64()
-	k, pub, err := NewIKESAKey(p, append([]byte{}, peer...), append([]byte{}, nonce...), si, sr)
+	pbuf, nbuf := vGuarded(peer), vGuarded(nonce)
+	k, pub, err := NewIKESAKey(p, pbuf[:len(peer)], nbuf[:len(nonce)], si, sr)
+	vr.Assert("c07.new.arguments-untouched", vr.All(vGuardIntact(pbuf, peer), vGuardIntact(nbuf, nonce)))
 	vr.Assert("c07.new.noerr", err == nil && k != nil)
 	if err != nil || k == nil {
 		return
